@@ -45,9 +45,25 @@ def alcd_z(v):
     return int(v[0]) if isinstance(v, (bytes, bytearray, list)) else int(v)
 
 
+class StoreEquipment(secsgem.gem.GemEquipmentHandler):
+    """An equipment that keeps the values of its constants in a store of its own (the documented use of on_ec_value_request /
+    on_ec_value_update): EquipmentConstant.value is then only the declared default, not the current value."""
+
+    def __init__(self, *args, **kw):
+        super().__init__(*args, **kw)
+        self.ec_store = {}
+
+    def on_ec_value_request(self, _ecid, equipment_constant):
+        return equipment_constant.value_type(self.ec_store[equipment_constant.ecid])
+
+    def on_ec_value_update(self, _ecid, equipment_constant, value):
+        self.ec_store[equipment_constant.ecid] = value
+
+
 class Equip:
-    def __init__(self):
-        self.rig = gemrig.GemRig(init="ONLINE", sub="REMOTE")
+    def __init__(self, store=False):
+        self.store = store
+        self.rig = gemrig.GemRig(init="ONLINE", sub="REMOTE", handler_cls=StoreEquipment if store else None)
         h = self.rig.handler
         # the library's own AlarmsEnabled / AlarmsSet status variables are kept aside and put back for the requests that ask for them
         self.alarm_svs = {k: h.status_variables[k] for k in (1004, 1005)}
@@ -58,8 +74,11 @@ class Equip:
             sv.value = v
             h.status_variables[i] = sv
         for i, n, u, lo, hi, df, ty, v in EC_DEF:
-            ec = secsgem.gem.EquipmentConstant(i, n, lo, hi, df, u, ty, False)
-            ec.value = v
+            ec = secsgem.gem.EquipmentConstant(i, n, lo, hi, df, u, ty, store)
+            if store:
+                h.ec_store[i] = v            # the current value lives in the equipment's own store, ec.value stays the default
+            else:
+                ec.value = v
             h.equipment_constants[i] = ec
         for i, n, t, code in AL_DEF:
             h.alarms[i] = secsgem.gem.Alarm(i, n, t, code, 100 + i, 200 + i)
@@ -75,7 +94,7 @@ class Equip:
 
     def snapshot(self):
         h = self.rig.handler
-        ecv = "[" + ";".join(f"({idl(k)}, {num_lit(c.value)})" for k, c in h.equipment_constants.items()) + "]"
+        ecv = "[" + ";".join(f"({idl(k)}, {num_lit(h.ec_store[k] if self.store else c.value)})" for k, c in h.equipment_constants.items()) + "]"
         al = "[" + ";".join(f"({idl(k)}, ({L.bool_(bool(a.enabled))}, {L.bool_(bool(a.set))}))" for k, a in h.alarms.items()) + "]"
         sv = "[" + ";".join(f"({idl(k)}, {L.z(int(s.value))})" for k, s in h.status_variables.items()) + "]"
         return ecv, al, sv
@@ -197,8 +216,8 @@ class Equip:
         raise ValueError(kind)
 
 
-def run_history(ops):
-    eq = Equip()
+def run_history(ops, store=False):
+    eq = Equip(store)
     steps = []
     try:
         for op in ops:
@@ -214,8 +233,8 @@ def run_history(ops):
     return init, steps
 
 
-def case_lit(ops):
-    init, steps = run_history(ops)
+def case_lit(ops, store=False):
+    init, steps = run_history(ops, store)
     return "{| d_init := " + init + ";\n   d_steps := [" + ";\n   ".join(steps) + "] |}"
 
 
@@ -282,9 +301,14 @@ DIRECTED = [
 
 def gen_cases(rnd, tier):
     cases = [("directed", d) for d in DIRECTED]
+    # the same histories against an equipment that keeps the constants' values in its own store (callbacks): the current value is
+    # what the store holds, EquipmentConstant.value only the default
+    cases += [("directed+store", d) for d in DIRECTED if any(op[0] == "set_ec" for op in d)]
+    cases.append(("directed+store", [("set_ec", [(10, 70)]), ("req_ec", [10]), ("set_ec", [(10, 50)]), ("req_ec", [10]), ("set_ec", [(10, 60), (30, 0)]), ("set_ec", [(10, 50), (30, 5)]), ("req_ec", []),
+                                     ("set_ec", [("ex", 0.0), (40, 1.0)]), ("req_ec", []), ("set_ec", [(30, 0), (10, 101)]), ("req_ec", [])]))
     n = 50 if tier == "quick" else 400
-    for _ in range(n):
-        cases.append(("random", rand_ops(rnd, rnd.randint(2, 14 if tier == "quick" else 40))))
+    for k in range(n):
+        cases.append(("random+store" if k % 3 == 2 else "random", rand_ops(rnd, rnd.randint(2, 14 if tier == "quick" else 40))))
     return cases
 
 
@@ -380,7 +404,7 @@ def run(tier, replay=None):
     cases = gen_cases(rnd, tier)
     wedged, kept, lits = [], [], []
     for c in cases:
-        lit = common.guarded(lambda c=c: case_lit(c[1]), repr(c[1]), wedged)
+        lit = common.guarded(lambda c=c: case_lit(c[1], c[0].endswith("+store")), repr(c[1]), wedged)
         if lit is not None:
             kept.append(c)
             lits.append(lit)
